@@ -41,4 +41,44 @@ CLAIMS = {
         "note": COMMON_NOTE,
         "technique": "ast node-shape agreement, typestate over all CFG paths of the wrapper, registry table checks",
     },
+    "C01": {
+        "text": "Decides structural clauses: lexer tables equal the specification's punctuator/ignored/escape tables; no Unicode-aware predicate decides a lexical class; keyword comparisons on token values are guarded by a Name class test; syntax-error positions inside IndexError handlers cannot exceed the text; only GraphQLSyntaxError subclasses escape parse/parse_value/parse_type (explicit raises through resolved calls). Token-level and character-level language equivalence with the grammar is decided by the recogniser-extraction rules when present (G1/L2). Does not decide behaviour beyond the recursion budget.",
+        "note": COMMON_NOTE,
+        "technique": 'ast table agreement, guard dominance, interprocedural may-raise summaries, recogniser extraction + DFA equivalence',
+    },
+    "C02": {
+        "text": 'Decides structural clauses: every parser construction supplies every constructor parameter incl. source/loc and parameters are slots; loc is _loc(first token of the production) evaluated after the last consumption; no reordering construct in the parser; number tokens carry the verbatim slice; escape table equals the specification; block-string helpers use no Unicode-aware splitting/stripping. Does not decide the body of the block-string algorithm.',
+        "note": COMMON_NOTE,
+        "technique": 'ast node-shape agreement, evaluation-order and def-use checks, table agreement',
+    },
+    "C04": {
+        "text": 'Decides structural clauses only: selection-kind dispatch exhaustiveness; collect_fields skip/merge conditions as exhaustive truth tables (@skip/@include, type condition, visited fragments) and path typestate (nothing collected before the tests); complete_value dispatch order/exhaustiveness and the abstract-type path; error sites; request isolation of caches. Does not decide that execution computes the specified result.',
+        "note": COMMON_NOTE,
+        "technique": 'truth-table evaluation of conditions, typestate over loop-body paths, dispatch exhaustiveness, effect scan',
+    },
+    "C08": {
+        "text": 'Decides per-callback obligations any schedule argument needs: runtime interface completeness; map_value/chain contract on every path (then once, else_ only for a matching exception of then, otherwise re-raise/set_exception); every done-callback path completes its future exactly once or re-arms; gather counter/partition discipline; asyncio gather bookkeeping; broad handlers never swallow; the two executors agree around a field. Does not decide interleavings or termination.',
+        "note": COMMON_NOTE,
+        "technique": 'path-sensitive typestate over all CFG paths incl. exception edges, sibling cross-check',
+    },
+    "C09": {
+        "text": 'Decides: execute() selects the serial strategy exactly for mutations; the generic serial strategy is a continuation chain (single resolve_field site, re-entered only from the then-continuation of that call, store-before-next, front-of-queue order); the blocking strategy is an in-order loop. Does not decide that a deferred value completes only after its sub-selection (depends on C08 and user runtimes).',
+        "note": COMMON_NOTE,
+        "technique": 'closure/call-graph shape rules, typestate over continuation paths',
+    },
+    "C10": {
+        "text": 'Decides: error dictionaries use exactly the response-format keys (message unconditional, line/column); located errors derive positions through index_to_loc guarded by loc/source; abort sites pass no data before execution and data=None after; every exception class explicitly raised by the execution stage functions is caught by process_graphql_query; Float serialisation rejects non-finite values. Does not decide one-to-one matching of nulls and errors nor user scalars.',
+        "note": COMMON_NOTE,
+        "technique": 'ast table checks, handler/raise class-hierarchy matching',
+    },
+    "C16": {
+        "text": 'Decides on every CFG path (normal and exceptional): stage hooks in process_graphql_query are properly nested pairs ending in on_query_end; in execute/subscribe every path on which on_execution_start fired also fires on_execution_end (directly or via the continuation attached with map_value); resolve_field fires on_field_start before coercion/resolver and on_field_end exactly once on every returning path (closure summaries, else_ class vs may-raise of then); MultiInstrumentation forwards all hooks (ends reversed); middleware chain built in order and applied once per cache miss. Does not decide completion orders.',
+        "note": COMMON_NOTE,
+        "technique": 'typestate over CFG paths with exception edges and closure summaries, may-raise summaries',
+    },
+    "C17": {
+        "text": 'Decides: the four refusals are raised on every path before the source stream / subscription resolver; per-event function clears errors before executing with the event as root and hands out a copy of the error list; the async stream adapter pulls one item per result, maps it once and cannot swallow StopAsyncIteration. Does not decide concurrent __anext__ calls or timing.',
+        "note": COMMON_NOTE,
+        "technique": 'path typestate with branch events (guard dominance), shape checks',
+    },
 }
